@@ -136,9 +136,10 @@ def oracle_fd(prop):
             if i.end != "done":
                 continue
             got = answer_ints(i, c.get("shape"))
-            exp = brute(names, doms, cons, 2)
+            nq = c.get("nq", 2)
+            exp = brute(names, doms, cons, nq)
             if prop == "C16":
-                bad = [g for g in got if not (len(g) == 2 and all(isinstance(x, int) for x in g) and tuple(g) in set(exp))]
+                bad = [g for g in got if not (len(g) == nq and all(isinstance(x, int) for x in g) and tuple(g) in set(exp))]
                 if bad:
                     fails.append({"case_index": k, "what": "an answer violates a posted constraint or a domain (or is not labeled): %s" % (bad[:3],),
                                   "brute_force_solutions": exp[:20]})
@@ -205,6 +206,49 @@ def run_fd(pid, tier, seed, replay=None):
         if third == "h":
             body = [["fresh", ["h"]] + body]
         cases.append(mk_case([], ["q", "r"], body, spec=(names, doms, [[rel, "q", "r", third]]), mode="bag_terms", budget=20000, maxans=200))
+    # products whose result domain spans negative values, over mixed-sign / all-negative factor domains
+    for _ in range(n // 6):
+        lo1, w1 = rnd.choice([(0, 3), (-3, 2), (-2, 3), (-3, 1), (1, 2), (-1, 1)])
+        lo2, w2 = rnd.choice([(-2, 3), (1, 1), (-3, 2), (0, 2), (-2, 1)])
+        d1, d2 = list(range(lo1, lo1 + w1 + 1)), list(range(lo2, lo2 + w2 + 1))
+        d3 = list(range(-6, 7))
+        order = rnd.choice([["q", "r"], ["r", "q"]])
+        con = ["timesfd", order[0], order[1], "h"]
+        body = [["dom", "q", ["i", d1[0], d1[-1]]], ["dom", "r", ["i", d2[0], d2[-1]]], ["dom", "h", ["i", -6, 6]], ["rel"] + con]
+        if rnd.random() < 0.3:
+            rnd.shuffle(body)
+        shown = rnd.random() < 0.5
+        if shown:
+            cases.append(mk_case([], ["q", "r", "h"], body, spec=(["q", "r", "h"], {"q": d1, "r": d2, "h": d3}, [con]), mode="bag_terms",
+                                 budget=30000, maxans=300, nq=3))
+        else:
+            cases.append(mk_case([], ["h"], [["fresh", ["q", "r"]] + body], spec=(["h", "q", "r"], {"q": d1, "r": d2, "h": d3}, [con]),
+                                 mode="bag_terms", budget=30000, maxans=300, nq=1))
+    # distinctfd over three variables: elements bound by == in any value order, before or after the domains are
+    # posted, one of them aliased to another domain variable, or all bound by one unification
+    for _ in range(n // 5):
+        vs = ["q", "r", "h"]
+        dom = list(range(1, 4)) if rnd.random() < 0.7 else list(range(0, 4))
+        vals = [rnd.choice(dom) for _ in range(3)]
+        binds = [["eq", v, x] for v, x in zip(vs, vals)]
+        rnd.shuffle(binds)
+        binds = binds[:rnd.randint(1, 3)]
+        cons = [["distinctfd"] + vs] + [["eq", b[1], b[2]] for b in binds]
+        domg = ["dom", ["list"] + vs, ["i", dom[0], dom[-1]]]
+        dist = ["rel", "distinctfd", ["list"] + vs]
+        k = rnd.random()
+        if k < 0.35:
+            body = [dist] + binds[:2] + [domg] + binds[2:]
+        elif k < 0.55:
+            body = [dist, domg, ["eq", ["list"] + vs, ["list"] + vals]]
+            cons = [["distinctfd"] + vs] + [["eq", v, x] for v, x in zip(vs, vals)]
+        elif k < 0.8:
+            # alias: the third element's domain lives under another variable's key
+            body = [["fresh", ["a"], ["dom", ["list", "q", "r", "a"], ["i", dom[0], dom[-1]]], ["eq", "h", "a"], dist] + binds]
+        else:
+            body = [domg, dist] + binds
+            rnd.shuffle(body)
+        cases.append(mk_case([], vs, body, spec=(vs, {v: dom for v in vs}, cons), mode="bag_terms", budget=30000, maxans=300, nq=3))
     # tree disequalities (!=) on finite-domain variables whose values are fixed by propagation (a domain
     # shrinking to one value), never by ==: the != must be re-checked when the domain binds the variable
     for _ in range(n // 5):
